@@ -28,13 +28,16 @@ def run(ctx, res):
         ex = [c for i, c in enumerate(ex) if (i // 2 + i) % 2 == 0]
     else:
         ex = R.exhaustive_cases(3, 4, hints=hints) + R.exhaustive_cases(4, 2)[len(R.exhaustive_cases(3, 2)):]
-    rnd = [R.gen_case(rng) for _ in range(ctx.n(900, 12000))]
-    cases = R.run_cases(ex) + R.run_cases(rnd, rng)
+    rnd = [R.gen_case(rng) for _ in range(ctx.n(1600, 20000))]
+    # optimality concerns contests for which an audit is possible: of the exhaustive stream keep the non-empty outputs
+    # (emptiness is C04's equation `output = [] <-> possible = false`, checked there on the whole stream)
+    ex = [c for c in R.run_cases(ex) if c["impl"]["out"] is None or c["impl"]["out"]]
+    cases = ex + R.run_cases(rnd, rng)
     cr = C.run_corr(ctx.pid, "raire", R.IMPORTS, "raire_case", cases, R.case_lit, "agree_c15", shard=250, show="show_c15")
     res.corr.append(("max difficulty of compute_raire_assertions output vs verified optimum opt (RaireCheck.v)", cr, R.case_json))
     ec = est_cases(ctx.n(60, 90))
     cr2 = C.run_corr(ctx.pid, "est", R.IMPORTS, "nat * nat * nat * Q * Q", ec,
-                     lambda c: f"({c[0]}, {c[1]}, {c[2]}, {C.qlit(c[3])}, {C.qlit(c[4])})", "agree_est", shard=4000,
+                     lambda c: f"({c[0]}, {c[1]}, {c[2]}, {C.qlit(c[3])}, {C.qlit(c[4])})", "agree_est", shard=1300,
                      show="show_est")
     res.corr.append(("bp_estimate / cp_estimate vs exact-rational bp_q / cp_q", cr2,
                      lambda c: {"winner": c[0], "loser": c[1], "total": c[2], "bp_estimate": c[3], "cp_estimate": c[4]}))
